@@ -59,6 +59,7 @@ type docGen struct {
 	hideVariants []string
 	wrapIn       string // C03: place the generated forest inside li / blockquote / table cell
 	layoutNoise  bool   // list items / quotes / pre may carry display:inline-block (C07)
+	markupText   bool   // some texts show markup as text (C05: nothing of it may come alive)
 	inlineJunk   bool   // inline formatting elements may hold hidden spans / scripts (C04)
 	noTitle      bool   // no <title> element (C09: the word-count clause needs pages without title)
 }
@@ -109,6 +110,8 @@ func (g *docGen) noiseAttrs() string {
 		` id="nx` + fmt.Sprint(g.rng.Intn(1000)) + `"`, ` class="kx` + fmt.Sprint(g.rng.Intn(1000)) + `"`,
 		` style="color:red"`, ` data-x="1"`, ` data-zq="v"`, ` zqunknown="1"`, ` title="tt"`, ` lang="en"`,
 		` aria-hidden="false"`, // explicitly exposed: as visible as without the attribute
+		// the same attribute twice (the parser keeps both)
+		` class="kx7" class="kx8"`, ` id="nx7" id="nx8"`, ` style="color:red" style="color:blue"`,
 	}
 	n := g.rng.Intn(4)
 	out := ""
@@ -159,7 +162,9 @@ func (g *docGen) hideAttr() string {
 var blockish = map[string]bool{"P": true, "DIV": true, "H": true, "UL": true, "OL": true, "LI": true, "BQ": true, "PRE": true,
 	"DT": true, "LT": true, "FIG": true, "FIGL": true, "TW": true, "LNK": true, "MRK": true, "ROOT": true,
 	// form controls and other replaced elements are visible boxes of their own: "alpha<input>omega" reads as two words
-	"SKF": true}
+	"SKF": true,
+	// a sharing box is a visible block, even though the converter leaves it out
+	"SHR": true}
 
 // padded renders the words of a text node, without the surrounding space on a side
 // that faces a block-level neighbour (or the edge of a block-level parent): there the
@@ -230,7 +235,13 @@ func (g *docGen) wrap(tag, attrs, inner string) string {
 func (g *docGen) render(n *cnode) string {
 	switch n.k {
 	case "T":
-		return g.padded(n, g.words(g.long))
+		w := g.words(g.long)
+		if g.markupText && g.rng.Intn(5) == 0 {
+			// text that SHOWS markup (a code sample, a comment quoting a tag): character references, not elements
+			w += " " + g.pick(`&lt;script&gt;zqh()&lt;/script&gt;`, `&lt;img src=x onerror=zqh()&gt;`,
+				`&lt;p id="nx1" class="kx1" style="color:red" onclick="zqh()"&gt;`, `&lt;style&gt;p{color:red}&lt;/style&gt;`)
+		}
+		return g.padded(n, w)
 	case "t":
 		return g.padded(n, g.words(g.short))
 	case "W":
@@ -301,6 +312,10 @@ func (g *docGen) render(n *cnode) string {
 		default:
 			return `<iframe src="https://frames.example.org/f` + fmt.Sprint(g.marker()) + `">` + w + "</iframe>"
 		}
+	case "SHR":
+		w := g.rawWords(n)
+		return g.pick(`<div class="sharing">`+w+`</div>`, `<div class="socialArea">`+w+`</div>`, `<div data-component="share">`+w+`</div>`,
+			`<section class="sharing"><a href="/share">`+w+`</a></section>`)
 	case "SKF":
 		w := g.rawWords(n)
 		switch g.pick("form", "button", "select", "textarea", "object", "applet", "label-input") {
